@@ -146,14 +146,14 @@ def main() -> int:
         i = rng.randrange(len(exprs))
         calls += 1
         try:
-            signal.setitimer(signal.ITIMER_REAL, 60)
+            signal.setitimer(signal.ITIMER_REAL, 30)
             try:
                 r = perform_cached_doit(exprs[i], d)
             finally:
                 signal.setitimer(signal.ITIMER_REAL, 0)
         except Stuck:
             stuck += 1
-            fails.append({"fail": "stuck", "expr": i, "mode": mode, "error": "a call did not return within 60 s"})
+            fails.append({"fail": "stuck", "expr": i, "mode": mode, "error": "a call did not return within 30 s"})
             break
         except Exception as ex:  # noqa: BLE001
             raised += 1
